@@ -67,7 +67,8 @@ def main():
         rc, out = sh("./check %s %s" % (prop, tier), cwd=VERIF, env=env, timeout=7200)
         res["check_rc"] = rc
         res["check_wall_s"] = round(time.time() - t0, 1)
-        res["check_lines"] = [l for l in out.splitlines() if l.startswith(("VIOLATION", "KNOWN-FINDING", "OK "))][:8]
+        lines = out.splitlines()
+        res["check_lines"] = [l for l in lines if l.startswith(("VIOLATION", "OK "))][:6] + [l[:160] for l in lines if l.startswith("KNOWN-FINDING")][:3]
         res["caught"] = (rc == 1 and any(l.startswith("VIOLATION") for l in res["check_lines"]))
         res["valid_seed"] = (res["demo_clean_rc"] == 0 and res["apply_rc"] == 0 and not res["tests_fail_output"]
                              and res["demo_patched_rc"] != 0 and "error" not in res["build_out"].lower())
